@@ -1,1 +1,824 @@
-//! C45: not implemented yet.
+//! C45 — CSPTP servers answer only requests, with correct echoes.
+//!
+//! Engine E-IN (+ short sequences): the real `serve` future is stepped by the hand-rolled
+//! executor of C44 against a scripted `ServerSocket`: the harness decides which datagram
+//! `recv` yields (with which receive timestamp and addresses), whether `recv` fails, what
+//! `send_event` returns (send timestamp or error) and whether `send_general` fails.
+//!
+//! Enumerated:
+//!  E1  request grammar: domain x sequence id x correction field x TLV arrangement x
+//!      receive timestamp x send outcome x server state (full product of the core), and
+//!      one-factor-at-a-time variation of every other header / body / TLV field
+//!  E2  the non-request grammar of C44 (responses, follow-ups, announce, garbage, wrong
+//!      sdoId / version, mixed TLVs ...) x server states: must stay silent
+//!  E3  every truncation, every single-byte substitution (all 255 other values at every
+//!      position; thorough: + pairs of positions), messageLength and TLV length edits of
+//!      6 base requests; each mutant is judged by the independent reader
+//!  E4  sequences of <= 4 (thorough 6) events (+ recv errors, state changes in between) through one
+//!      `serve` call: no cross-talk between consecutive packets, shutdown honoured
+//!
+//! Oracle (from the statement; datagrams read by the byte-level inspector of C44, never by
+//! the library): nothing is sent for a datagram that is not a well-formed CSPTP request;
+//! an answer is a CSPTP response carrying the request's domain, sequence id, the receive
+//! time the socket reported and the request's correction field, sent from the address the
+//! request was sent to, to its sender; a two-step answer is followed by exactly one
+//! follow-up with the same ids carrying the timestamp `send_event` returned (none if the
+//! send failed); a one-step answer must itself carry the send time; nothing else is sent.
+//! Beyond the statement (classes `C45:request-unanswered`, `C45:status-content`): unambiguous
+//! requests are answered; leap/traceability flags and the status TLV mirror the server state.
+extern crate std;
+use core::cell::RefCell;
+use core::future::Future;
+use core::task::Poll;
+use std::prelude::v1::*;
+use std::sync::{Arc, Mutex};
+use std::{format, println, vec};
+
+use ntp_proto::NtpLeapIndicator;
+use statime_wire::{ClockAccuracy, ClockIdentity, ClockQuality, Timestamp};
+
+use super::c44::wire::{self, Class, Kind, Pkt};
+use super::c44::block_on_steps;
+use super::common::{self, Ctx};
+use crate::{CsptpConfig, CsptpManager, InternalState, ServerRecvResult, ServerSocket, StateMutex, serve};
+
+type Ts = (u64, u32);
+
+// ---------------------------------------------------------------------------------
+// scenario + mock socket
+// ---------------------------------------------------------------------------------
+#[derive(Clone, Debug, PartialEq, Eq, Hash)]
+enum Ev {
+    /// a datagram arrives; `send`: what send_event will answer (None = error); `general_ok`
+    Dgram { bytes: Vec<u8>, rx: Ts, remote: u32, local: u32, send: Option<Ts>, general_ok: bool },
+    RecvErr,
+    /// the server state is switched (by the rest of the daemon) before the next packet
+    State(usize),
+}
+
+#[derive(Clone, Debug, PartialEq, Eq, Hash)]
+struct Scenario {
+    state: usize,
+    events: Vec<Ev>,
+}
+
+#[derive(Clone, Debug, PartialEq, Eq)]
+struct Sent {
+    /// index (in `events`) of the datagram being handled when this was sent
+    during: usize,
+    event: bool,
+    bytes: Vec<u8>,
+    from: u32,
+    to: u32,
+}
+
+struct Env {
+    sc: Scenario,
+    pos: usize,
+    cur: Option<usize>,
+    sent: Vec<Sent>,
+    done: bool,
+}
+
+struct Sock<'a> {
+    env: Arc<Mutex<Env>>,
+    mgr: &'a CsptpManager<RefCell<InternalState>>,
+}
+
+impl ServerSocket for Sock<'_> {
+    type Addr = u32;
+    type Error = &'static str;
+
+    fn recv(&mut self, buf: &mut [u8]) -> impl Future<Output = Result<ServerRecvResult<u32>, Self::Error>> {
+        let env = self.env.clone();
+        let mgr = self.mgr;
+        core::future::poll_fn(move |_cx| {
+            let mut e = env.lock().unwrap();
+            loop {
+                let pos = e.pos;
+                match e.sc.events.get(pos).cloned() {
+                    None => {
+                        e.done = true;
+                        e.cur = None;
+                        return Poll::Pending;
+                    }
+                    Some(Ev::State(i)) => {
+                        // the rest of the daemon changes the server state between two packets
+                        e.pos += 1;
+                        apply_state(mgr, &STATES[i]);
+                    }
+                    Some(Ev::RecvErr) => {
+                        e.pos += 1;
+                        e.cur = None;
+                        return Poll::Ready(Err("recv error"));
+                    }
+                    Some(Ev::Dgram { bytes, rx, remote, local, .. }) => {
+                        e.pos += 1;
+                        e.cur = Some(pos);
+                        let n = bytes.len().min(buf.len());
+                        buf[..n].copy_from_slice(&bytes[..n]);
+                        return Poll::Ready(Ok(ServerRecvResult { bytes_read: n, remote_addr: remote, local_addr: local, timestamp: Timestamp::new(rx.0, rx.1).unwrap() }));
+                    }
+                }
+            }
+        })
+    }
+
+    fn send_event(&mut self, buf: &[u8], from: u32, to: u32) -> impl Future<Output = Result<Timestamp, Self::Error>> {
+        let mut e = self.env.lock().unwrap();
+        let during = e.cur.unwrap_or(usize::MAX);
+        e.sent.push(Sent { during, event: true, bytes: buf.to_vec(), from, to });
+        let r = match e.sc.events.get(during) {
+            Some(Ev::Dgram { send: Some(t), .. }) => Ok(Timestamp::new(t.0, t.1).unwrap()),
+            _ => Err("send error"),
+        };
+        core::future::ready(r)
+    }
+
+    fn send_general(&mut self, buf: &[u8], from: u32, to: u32) -> impl Future<Output = Result<(), Self::Error>> {
+        let mut e = self.env.lock().unwrap();
+        let during = e.cur.unwrap_or(usize::MAX);
+        e.sent.push(Sent { during, event: false, bytes: buf.to_vec(), from, to });
+        let r = match e.sc.events.get(during) {
+            Some(Ev::Dgram { general_ok: true, .. }) => Ok(()),
+            _ => Err("send error"),
+        };
+        core::future::ready(r)
+    }
+}
+
+// ---------------------------------------------------------------------------------
+// server states
+// ---------------------------------------------------------------------------------
+#[derive(Clone, Copy, Debug)]
+struct St {
+    leap: NtpLeapIndicator,
+    ptp: bool,
+    time_tr: bool,
+    freq_tr: bool,
+    p1: u8,
+    p2: u8,
+    class: u8,
+    acc: u8,
+    var: u16,
+    steps: u16,
+    gm: [u8; 8],
+}
+
+const STATES: [St; 8] = [
+    St { leap: NtpLeapIndicator::NoWarning, ptp: true, time_tr: false, freq_tr: false, p1: 255, p2: 255, class: 248, acc: 0xfe, var: 0x6900, steps: 0, gm: [0; 8] },
+    St { leap: NtpLeapIndicator::Leap59, ptp: false, time_tr: true, freq_tr: false, p1: 0, p2: 1, class: 6, acc: 0x21, var: 0, steps: 1, gm: [1, 2, 3, 4, 5, 6, 7, 8] },
+    St { leap: NtpLeapIndicator::Leap61, ptp: true, time_tr: false, freq_tr: true, p1: 128, p2: 0, class: 0, acc: 0x17, var: 0xffff, steps: 0xffff, gm: [0xff; 8] },
+    St { leap: NtpLeapIndicator::Unknown, ptp: false, time_tr: false, freq_tr: false, p1: 1, p2: 128, class: 255, acc: 0x31, var: 1, steps: 0x0102, gm: [0x80, 0, 0, 0, 0, 0, 0, 1] },
+    St { leap: NtpLeapIndicator::Unsynchronized, ptp: true, time_tr: true, freq_tr: true, p1: 7, p2: 9, class: 13, acc: 0x80, var: 0x8000, steps: 255, gm: [0, 0, 0, 0, 0, 0, 0, 1] },
+    St { leap: NtpLeapIndicator::NoWarning, ptp: false, time_tr: true, freq_tr: true, p1: 254, p2: 254, class: 52, acc: 0xfd, var: 0x00ff, steps: 256, gm: [0xaa; 8] },
+    St { leap: NtpLeapIndicator::Leap59, ptp: true, time_tr: true, freq_tr: false, p1: 127, p2: 129, class: 187, acc: 0x2f, var: 0xff00, steps: 2, gm: [0x55; 8] },
+    St { leap: NtpLeapIndicator::Leap61, ptp: false, time_tr: false, freq_tr: true, p1: 2, p2: 3, class: 193, acc: 0x20, var: 0x4e5d, steps: 0xfffe, gm: [0x10, 0x20, 0x30, 0x40, 0x50, 0x60, 0x70, 0x80] },
+];
+
+fn apply_state(m: &CsptpManager<RefCell<InternalState>>, st: &St) {
+    m.state.with_mut(|s| {
+        s.time_snapshot.leap_indicator = st.leap;
+        s.csptp_state.ptp_timescale = st.ptp;
+        s.csptp_state.time_traceable = st.time_tr;
+        s.csptp_state.frequency_traceable = st.freq_tr;
+        s.csptp_state.grandmaster_priority_1 = st.p1;
+        s.csptp_state.grandmaster_priority_2 = st.p2;
+        s.csptp_state.grandmaster_clock_quality = ClockQuality { clock_class: st.class, clock_accuracy: ClockAccuracy::from_primitive(st.acc), offset_scaled_log_variance: st.var };
+        s.csptp_state.steps_removed = st.steps;
+        s.csptp_state.grandmaster_identity = ClockIdentity(st.gm);
+    });
+}
+
+struct Obs {
+    result: String,
+    sent: Vec<Sent>,
+    consumed: usize,
+    polls: usize,
+}
+
+fn run_scenario(sc: &Scenario) -> Result<Obs, String> {
+    let env = Arc::new(Mutex::new(Env { sc: sc.clone(), pos: 0, cur: None, sent: vec![], done: false }));
+    let manager: CsptpManager<RefCell<InternalState>> = CsptpManager::new(CsptpConfig::default());
+    apply_state(&manager, &STATES[sc.state]);
+    let max_polls = 2 * sc.events.len() + 8;
+    let r = common::catch(|| {
+        let e1 = env.clone();
+        let shutdown = core::future::poll_fn(move |_| if e1.lock().unwrap().done { Poll::Ready(()) } else { Poll::Pending });
+        block_on_steps(serve(Sock { env: env.clone(), mgr: &manager }, shutdown, &manager), max_polls)
+    });
+    let mut e = env.lock().unwrap();
+    let (result, polls) = match r {
+        Err(p) => return Err(p),
+        Ok(Err(stuck)) => (format!("STUCK: {stuck}"), max_polls),
+        Ok(Ok(((), n))) => ("ok".to_string(), n),
+    };
+    Ok(Obs { result, sent: std::mem::take(&mut e.sent), consumed: e.pos, polls })
+}
+
+// ---------------------------------------------------------------------------------
+// oracle
+// ---------------------------------------------------------------------------------
+#[derive(Default)]
+struct Tally {
+    c: std::collections::BTreeMap<&'static str, u64>,
+    distinct: Vec<u64>,
+}
+impl Tally {
+    fn inc(&mut self, k: &'static str) {
+        *self.c.entry(k).or_insert(0) += 1;
+    }
+    fn flush(&mut self, ctx: &Ctx) {
+        for (k, v) in std::mem::take(&mut self.c) {
+            ctx.add(k, v);
+        }
+        ctx.distinct_many(std::mem::take(&mut self.distinct));
+    }
+}
+
+fn judge(ctx: &Ctx, tl: &mut Tally, sc: &Scenario) -> String {
+    let trace = || fmt_scenario(sc);
+    tl.inc("evaluations");
+    tl.inc("scenarios");
+    let obs = match run_scenario(sc) {
+        Ok(o) => o,
+        Err(p) => {
+            ctx.violation("C45:panic", format!("serve panicked (the daemon aborts): {p}"), trace());
+            tl.inc("panics");
+            return format!("PANIC {p}");
+        }
+    };
+    let mut line = format!("{} ", obs.result);
+    if obs.result != "ok" || obs.consumed != sc.events.len() {
+        ctx.violation("C45:serve-did-not-finish", format!("serve: {}, consumed {} of {} events (shutdown must end the loop after the current packet)", obs.result, obs.consumed, sc.events.len()), trace());
+        return line;
+    }
+    if obs.sent.iter().any(|s| s.during == usize::MAX) {
+        ctx.violation("C45:spontaneous-send", "something was sent while no packet was being handled", trace());
+    }
+    let mut state = sc.state;
+    for (i, ev) in sc.events.iter().enumerate() {
+        let (bytes, rx, remote, local, send, _general_ok) = match ev {
+            Ev::State(s) => {
+                state = *s;
+                continue;
+            }
+            Ev::RecvErr => {
+                tl.inc("recv_errors");
+                continue;
+            }
+            Ev::Dgram { bytes, rx, remote, local, send, general_ok } => (bytes, *rx, *remote, *local, *send, *general_ok),
+        };
+        tl.inc("datagrams");
+        let sent: Vec<&Sent> = obs.sent.iter().filter(|s| s.during == i).collect();
+        let view = &bytes[..bytes.len().min(512)];
+        let (class, ks) = wire::classify(view);
+        let req = match (class, ks) {
+            (Class::Invalid, _) | (_, None) => None,
+            (c, Some((Kind::Request, s))) => Some((c, s)),
+            _ => None,
+        };
+        let Some((class, req)) = req else {
+            tl.inc("non_requests");
+            if !sent.is_empty() {
+                ctx.violation(
+                    "C45:answers-non-request",
+                    format!("datagram {i} is not a well-formed CSPTP request ({}) but {} datagram(s) were sent in reply", describe(view), sent.len()),
+                    trace(),
+                );
+                line.push_str(&format!("d{i}:BADREPLY{} ", sent.len()));
+            } else {
+                line.push_str(&format!("d{i}:silent "));
+            }
+            continue;
+        };
+        if sent.is_empty() {
+            if class == Class::Valid {
+                ctx.violation("C45:request-unanswered", format!("datagram {i} is a well-formed CSPTP request (domain {} seq {}) but nothing was sent", req.domain, req.seq), trace());
+            } else {
+                tl.inc("grey_requests_unanswered");
+            }
+            line.push_str(&format!("d{i}:unanswered "));
+            continue;
+        }
+        tl.inc(if class == Class::Valid { "requests_answered" } else { "grey_requests_answered" });
+        // ---- the answer ----
+        let a = sent[0];
+        if !a.event {
+            ctx.violation("C45:answer-shape", format!("datagram {i}: first reply went out on the general socket"), trace());
+        }
+        if a.from != local || a.to != remote {
+            ctx.violation("C45:reply-address", format!("datagram {i}: answer sent {} -> {}, request came {} -> {}", a.from, a.to, remote, local), trace());
+        }
+        let (acl, aks) = wire::classify(&a.bytes);
+        let ans = match aks {
+            Some((Kind::Response, s)) if acl == Class::Valid && s.len == a.bytes.len() => s,
+            _ => {
+                ctx.violation("C45:answer-malformed", format!("datagram {i}: the answer is not a well-formed CSPTP response: {}", common::hex(&a.bytes)), trace());
+                continue;
+            }
+        };
+        if ans.domain != req.domain || ans.seq != req.seq {
+            ctx.violation("C45:echo-ids", format!("datagram {i}: request domain {} seq {}, answer domain {} seq {}", req.domain, req.seq, ans.domain, ans.seq), trace());
+        }
+        let (ingress, rcorr) = wire::resp_fields(&ans).unwrap();
+        if ingress != rx {
+            ctx.violation("C45:echo-rx-time", format!("datagram {i}: received at {rx:?}, response TLV says {ingress:?}"), trace());
+        }
+        if rcorr != req.corr {
+            ctx.violation("C45:echo-correction", format!("datagram {i}: request correctionField {}, response TLV says {rcorr}", req.corr), trace());
+        }
+        let two_step = ans.flag0 & wire::F0_TWO_STEP != 0;
+        let follow: Vec<&&Sent> = sent[1..].iter().collect();
+        if two_step {
+            tl.inc("two_step_answers");
+            match send {
+                Some(ts) => {
+                    if follow.len() != 1 {
+                        ctx.violation("C45:follow-up-count", format!("datagram {i}: two-step answer sent at {ts:?} but {} further datagram(s) followed (expected exactly one follow-up)", follow.len()), trace());
+                    } else {
+                        let f = follow[0];
+                        if f.event {
+                            tl.inc("follow_up_on_event_socket");
+                        }
+                        if f.from != local || f.to != remote {
+                            ctx.violation("C45:reply-address", format!("datagram {i}: follow-up sent {} -> {}, request came {} -> {}", f.from, f.to, remote, local), trace());
+                        }
+                        match wire::classify(&f.bytes) {
+                            (Class::Valid, Some((Kind::FollowUp, fs))) if fs.len == f.bytes.len() => {
+                                if fs.domain != req.domain || fs.seq != req.seq {
+                                    ctx.violation("C45:echo-ids", format!("datagram {i}: follow-up domain {} seq {}, request domain {} seq {}", fs.domain, fs.seq, req.domain, req.seq), trace());
+                                }
+                                if fs.body_ts != ts {
+                                    ctx.violation("C45:follow-up-time", format!("datagram {i}: send_event returned {ts:?}, follow-up carries {:?}", fs.body_ts), trace());
+                                }
+                                // the follow-up's correction must not distort the send time
+                                if fs.corr != 0 {
+                                    ctx.violation("C45:follow-up-time", format!("datagram {i}: follow-up has correctionField {}", fs.corr), trace());
+                                }
+                                tl.inc("follow_ups_checked");
+                            }
+                            _ => ctx.violation("C45:answer-malformed", format!("datagram {i}: the follow-up is not a well-formed CSPTP follow-up: {}", common::hex(&f.bytes)), trace()),
+                        }
+                    }
+                }
+                None => {
+                    tl.inc("send_failures");
+                    if !follow.is_empty() {
+                        ctx.violation("C45:follow-up-without-send-time", format!("datagram {i}: send_event failed (no send time) but {} more datagram(s) were sent", follow.len()), trace());
+                    }
+                }
+            }
+        } else {
+            tl.inc("one_step_answers");
+            if Some(ans.body_ts) != send {
+                ctx.violation("C45:one-step-time", format!("datagram {i}: one-step answer carries origin time {:?}, actual send time {send:?}", ans.body_ts), trace());
+            }
+            if !follow.is_empty() {
+                ctx.violation("C45:follow-up-count", format!("datagram {i}: one-step answer followed by {} datagram(s)", follow.len()), trace());
+            }
+        }
+        if ans.corr != 0 && !two_step {
+            tl.inc("answer_with_correction");
+        }
+        // ---- beyond the statement: flags and status mirror the server state ----
+        let st = &STATES[state];
+        let want_l59 = st.leap == NtpLeapIndicator::Leap59;
+        let want_l61 = st.leap == NtpLeapIndicator::Leap61;
+        let got = (ans.flag1 & wire::F1_LEAP59 != 0, ans.flag1 & wire::F1_LEAP61 != 0, ans.flag1 & 0x08 != 0, ans.flag1 & 0x10 != 0, ans.flag1 & 0x20 != 0);
+        if got != (want_l59, want_l61, st.ptp, st.time_tr, st.freq_tr) {
+            ctx.violation("C45:status-content", format!("datagram {i}: flags (leap59, leap61, ptpTimescale, timeTraceable, frequencyTraceable) = {got:?}, server state {:?}", (want_l59, want_l61, st.ptp, st.time_tr, st.freq_tr)), trace());
+        }
+        let wants_status = req.tlvs.iter().find(|t| t.0 == wire::TLV_REQ).is_some_and(|t| t.1[0] & 1 != 0);
+        let status: Vec<&(u16, Vec<u8>)> = ans.tlvs.iter().filter(|t| t.0 == wire::TLV_STATUS).collect();
+        if wants_status {
+            tl.inc("status_requested");
+            let want = wire::status_tlv(st.p1, st.class, ClockAccuracy::from_primitive(st.acc).to_primitive(), st.var, st.p2, st.steps, 0, st.gm).1;
+            if status.len() != 1 || status[0].1.len() != 18 || status[0].1[..8] != want[..8] || status[0].1[10..] != want[10..] {
+                ctx.violation("C45:status-content", format!("datagram {i}: status TLV {:?}, server state gives {}", status.iter().map(|t| common::hex(&t.1)).collect::<Vec<_>>(), common::hex(&want)), trace());
+            }
+        } else if !status.is_empty() {
+            ctx.violation("C45:status-content", format!("datagram {i}: status TLV sent although the request did not ask for it"), trace());
+        }
+        line.push_str(&format!("d{i}:answered{} ", sent.len()));
+    }
+    tl.distinct.push(common::hash_of(&(sc, &line)));
+    line
+}
+
+fn describe(d: &[u8]) -> String {
+    if d.len() < 44 {
+        return format!("{} bytes", d.len());
+    }
+    format!("type {:x} sdo {:x}{:02x} ver {:02x} len {}/{}", d[0] & 15, d[0] >> 4, d[5], d[1], u16::from_be_bytes([d[2], d[3]]), d.len())
+}
+
+// ---------------------------------------------------------------------------------
+// trace format
+// ---------------------------------------------------------------------------------
+fn fmt_ts(t: Ts) -> String {
+    format!("{}.{}", t.0, t.1)
+}
+fn parse_ts(s: &str) -> Option<Ts> {
+    let (a, b) = s.split_once('.')?;
+    Some((a.parse().ok()?, b.parse().ok()?))
+}
+fn fmt_scenario(sc: &Scenario) -> String {
+    let mut s = format!("st={}", sc.state);
+    for e in &sc.events {
+        s.push('/');
+        match e {
+            Ev::RecvErr => s.push('e'),
+            Ev::State(i) => s.push_str(&format!("S{i}")),
+            Ev::Dgram { bytes, rx, remote, local, send, general_ok } => s.push_str(&format!("d{}@{}:{}>{}:{}:{}", common::hex(bytes), fmt_ts(*rx), remote, local, send.map_or("x".to_string(), fmt_ts), *general_ok as u8)),
+        }
+    }
+    s
+}
+fn parse_scenario(t: &str) -> Option<Scenario> {
+    let mut parts = t.split('/');
+    let state: usize = parts.next()?.strip_prefix("st=")?.parse().ok()?;
+    if state >= STATES.len() {
+        return None;
+    }
+    let mut events = vec![];
+    for p in parts {
+        if p == "e" {
+            events.push(Ev::RecvErr);
+        } else if let Some(i) = p.strip_prefix('S') {
+            events.push(Ev::State(i.parse().ok().filter(|i| *i < STATES.len())?));
+        } else {
+            let (h, rest) = p.strip_prefix('d')?.split_once('@')?;
+            let f: Vec<&str> = rest.split(':').collect();
+            if f.len() != 4 {
+                return None;
+            }
+            let (remote, local) = f[1].split_once('>')?;
+            events.push(Ev::Dgram {
+                bytes: common::unhex(h)?,
+                rx: parse_ts(f[0])?,
+                remote: remote.parse().ok()?,
+                local: local.parse().ok()?,
+                send: if f[2] == "x" { None } else { Some(parse_ts(f[2])?) },
+                general_ok: f[3] == "1",
+            });
+        }
+    }
+    Some(Scenario { state, events })
+}
+
+fn replay(ctx: &Ctx, trace: &str) -> String {
+    match parse_scenario(trace) {
+        Some(sc) => judge(ctx, &mut Tally::default(), &sc),
+        None => "unparsable trace".to_string(),
+    }
+}
+
+// ---------------------------------------------------------------------------------
+// grammar
+// ---------------------------------------------------------------------------------
+fn request(domain: u8, seq: u16, corr: i64, flags: u8) -> Pkt {
+    let mut p = Pkt::new(0, domain, seq);
+    p.corr = corr;
+    p.tlvs = vec![wire::req_tlv(flags)];
+    p
+}
+
+/// TLV arrangements around the request TLV.
+fn arrangements(flags: u8) -> Vec<(&'static str, Vec<(u16, Vec<u8>)>)> {
+    let r = wire::req_tlv(flags);
+    vec![
+        ("req", vec![r.clone()]),
+        ("pad4,req", vec![(wire::TLV_PAD, vec![0; 4]), r.clone()]),
+        ("req,pad2", vec![r.clone(), (wire::TLV_PAD, vec![0; 2])]),
+        ("req,status", vec![r.clone(), wire::status_tlv(1, 2, 3, 4, 5, 6, 7, [8; 8])]),
+        ("req,pad0", vec![r.clone(), (wire::TLV_PAD, vec![])]),
+        ("pad0,req", vec![(wire::TLV_PAD, vec![]), r.clone()]),
+        ("req,req", vec![r.clone(), wire::req_tlv(flags ^ 1)]),
+        ("req,resp", vec![r.clone(), wire::resp_tlv(1, 2, 3)]),
+        ("resp,req", vec![wire::resp_tlv(1, 2, 3), r.clone()]),
+        ("none", vec![]),
+        ("resp", vec![wire::resp_tlv(1, 2, 3)]),
+        ("req1byte", vec![(wire::TLV_REQ, vec![flags])]),
+        ("req2byte", vec![(wire::TLV_REQ, vec![flags, 0])]),
+        ("req0byte", vec![(wire::TLV_REQ, vec![])]),
+        ("req6byte", vec![(wire::TLV_REQ, vec![flags, 1, 2, 3, 4, 5])]),
+        ("unknown,req", vec![(0x7f00, vec![1, 2, 3, 4, 5, 6]), r.clone()]),
+    ]
+}
+
+const RX: [Ts; 3] = [(0, 0), (1_700_000_000, 123_456_789), ((1 << 48) - 1, 999_999_999)];
+const SENDS: [(Option<Ts>, bool); 5] = [(Some((0, 0)), true), (Some((1_700_000_001, 1)), true), (Some(((1 << 48) - 1, 999_999_999)), true), (None, true), (Some((5, 6)), false)];
+
+fn dgram(bytes: Vec<u8>, rx: Ts, send: (Option<Ts>, bool), k: u32) -> Ev {
+    Ev::Dgram { bytes, rx, remote: 1000 + k, local: 2000 + k, send: send.0, general_ok: send.1 }
+}
+
+/// The non-request grammar (C44's alphabet, addressed to the server).
+fn non_requests() -> Vec<Vec<u8>> {
+    let mut v = Vec::new();
+    for two in [0u8, wire::F0_TWO_STEP] {
+        let mut p = Pkt::new(0, 128, 7);
+        p.flag0 |= two;
+        p.tlvs = vec![wire::resp_tlv(5, 6, 7)];
+        v.push(p.bytes());
+        p.tlvs.push(wire::status_tlv(1, 2, 3, 4, 5, 6, 7, [8; 8]));
+        v.push(p.bytes());
+    }
+    let mut p = Pkt::new(8, 128, 7);
+    p.flag0 |= wire::F0_TWO_STEP;
+    v.push(p.bytes());
+    p.tlvs = vec![wire::req_tlv(1)]; // a follow-up carrying a request TLV is still not a request
+    v.push(p.bytes());
+    for mtype in [1u8, 2, 3, 9, 0xa, 0xb, 0xc, 0xd, 4, 5, 6, 7, 0xe, 0xf] {
+        let mut p = request(128, 7, 0, 1);
+        p.mtype = mtype;
+        p.body = vec![0; 30];
+        v.push(p.bytes());
+    }
+    for sdo in [0x000u16, 0x100, 0x301, 0x200, 0x3ff, 0xf00, 0x030] {
+        let mut p = request(128, 7, 0, 1);
+        p.sdo = sdo;
+        v.push(p.bytes());
+    }
+    for ver in [0x10u8, 0x11, 0x13, 0x1f, 0x01, 0x21] {
+        let mut p = request(128, 7, 0, 1);
+        p.ver = ver;
+        v.push(p.bytes());
+    }
+    v.push(vec![]);
+    v.push(vec![0xff; 20]);
+    v.push(vec![0x00; 64]);
+    v.push(vec![0xff; 64]);
+    v.push(vec![0x30; 600]);
+    v
+}
+
+#[test]
+fn check() {
+    let ctx = Ctx::new("C45");
+    if let Some(t) = common::replay_trace() {
+        let a = replay(&ctx, &t);
+        let b = replay(&ctx, &t);
+        common::report_replay("C45", &a, &b, ctx.violation_count() > 0);
+        return;
+    }
+    let quick = ctx.quick();
+    ctx.rule(
+        "E1: requests over domain {0,128,255 (thorough +1,127,129)} x sequence {0,1,0x1234,0xffff (thorough +0xff,0x100,0x8000,0xfffe)} x correctionField {0,1,-1,1s,MIN,MAX (thorough +-1ns, pattern)} x 16 TLV arrangements \
+         (request TLV alone, with padding/unknown/status TLVs before and after, empty-valued neighbours, duplicated, mixed with a response \
+         TLV, 0/1/2/6-byte values, none) x receive time {0, now, 2^48-1 s} x send outcome {3 send times, send error, follow-up send error} \
+         x 8 server states, plus every other header field one at a time; E2: 40 non-request datagrams x states; E3: every truncation, \
+         every position x all 255 other byte values (thorough: + every pair of positions x 5 patterns), messageLength / TLV length edits of 6 base requests; E4: every sequence of <=4 (thorough <=6) events over 9 symbols through one serve call. \
+         Non-trivial & distinct = distinct (scenario, per-datagram outcome).",
+    );
+    ctx.assume("the independent reader (C44 wire::classify) defines 'well-formed CSPTP request': Sync, sdoId 0x300, versionPTP 2, consistent lengths, even TLVs, exactly one non-empty CSPTP request TLV and no response TLV; nanoseconds == 10^9, a trailing empty TLV and duplicated request TLVs are left open (either behaviour accepted)");
+    ctx.assume("datagrams longer than the 512-byte receive buffer are judged on their first 512 bytes (the mock truncates like the daemon's socket wrapper)");
+
+    let n_states = STATES.len();
+
+    // ---- E1 core product ----
+    let domains: &[u8] = if quick { &[0, 128, 255] } else { &[0, 1, 127, 128, 129, 255] };
+    let seqs: &[u16] = if quick { &[0, 1, 0x1234, 0xffff] } else { &[0, 1, 0xff, 0x100, 0x1234, 0x8000, 0xfffe, 0xffff] };
+    let corrs: &[i64] = if quick { &[0, 1, -1, 1_000_000_000 << 16, i64::MIN, i64::MAX] } else { &[0, 1, -1, 1 << 16, -(1 << 16), 1_000_000_000 << 16, 0x0123_4567_89ab_cdef, i64::MIN, i64::MAX] };
+    let arr_n = arrangements(0).len();
+    let core: Vec<usize> = vec![domains.len(), seqs.len(), corrs.len(), arr_n, RX.len(), SENDS.len(), n_states];
+    let total: u64 = core.iter().map(|x| *x as u64).product();
+    ctx.set("e1_core_cases", total);
+    common::par_for(total, 512, |i| {
+        let mut tl = Tally::default();
+        let mut x = i as usize;
+        let mut pick = |n: usize| {
+            let r = x % n;
+            x /= n;
+            r
+        };
+        let st = pick(n_states);
+        let send = SENDS[pick(SENDS.len())];
+        let rx = RX[pick(RX.len())];
+        let ai = pick(arr_n);
+        let corr = corrs[pick(corrs.len())];
+        let seq = seqs[pick(seqs.len())];
+        let domain = domains[pick(domains.len())];
+        let flags = (i % 4) as u8;
+        let mut p = request(domain, seq, corr, flags);
+        let (name, tlvs) = arrangements(flags).swap_remove(ai);
+        p.tlvs = tlvs;
+        let sc = Scenario { state: st, events: vec![dgram(p.bytes(), rx, send, (i % 7) as u32)] };
+        let line = judge(&ctx, &mut tl, &sc);
+        if i % 100_003 == 11 {
+            ctx.sample(format!("E1 dom {domain} seq {seq} corr {corr} tlvs [{name}] rx {rx:?} send {send:?} state {st} -> {line}"));
+        }
+        tl.flush(&ctx);
+    });
+
+    // ---- E1 one factor at a time ----
+    {
+        let mut tl = Tally::default();
+        let mut variants: Vec<Pkt> = Vec::new();
+        for f0 in 0..=255u8 {
+            let mut p = request(128, 9, 77, 1);
+            p.flag0 = f0;
+            variants.push(p);
+        }
+        for f1 in 0..=255u8 {
+            let mut p = request(128, 9, 77, 1);
+            p.flag1 = f1;
+            variants.push(p);
+        }
+        for flags in 0..=255u8 {
+            variants.push(request(128, 9, 77, flags));
+        }
+        for d in 0..=255u8 {
+            variants.push(request(d, 9, 77, 3));
+        }
+        for li in 0..=255u8 {
+            let mut p = request(128, 9, 77, 1);
+            p.logint = li;
+            variants.push(p);
+        }
+        for minor in 0..16u8 {
+            let mut p = request(128, 9, 77, 1);
+            p.ver = (minor << 4) | 2;
+            variants.push(p);
+        }
+        for (sec, nanos) in [(0u64, 0u32), (1, 1), ((1 << 48) - 1, 999_999_999), (5, 1_000_000_000), (5, 1_000_000_001), (5, u32::MAX)] {
+            let mut p = request(128, 9, 77, 1);
+            p.body = wire::ts10(sec, nanos);
+            variants.push(p);
+        }
+        for delta in [-60i32, -11, -10, -9, -8, -4, -2, -1, 1, 2, 4, 1000] {
+            let mut p = request(128, 9, 77, 1);
+            p.len_delta = delta;
+            variants.push(p);
+        }
+        for s in 0..=0xffffu16 {
+            if s % 257 == 0 || s < 300 {
+                variants.push(request(128, s, 77, 1));
+            }
+        }
+        ctx.set("e1_single_factor_variants", variants.len() as u64);
+        for (k, p) in variants.iter().enumerate() {
+            let bytes = p.bytes();
+            for pad in [0usize, 1, 2] {
+                let mut b = bytes.clone();
+                b.extend(std::iter::repeat(0xee).take(pad));
+                for st in [0usize, 2] {
+                    judge(&ctx, &mut tl, &Scenario { state: st, events: vec![dgram(b.clone(), RX[1], SENDS[1], k as u32)] });
+                }
+            }
+        }
+        tl.flush(&ctx);
+    }
+
+    // ---- E2 ----
+    let nonreq = non_requests();
+    ctx.set("e2_non_requests", nonreq.len() as u64);
+    {
+        let mut tl = Tally::default();
+        for (k, d) in nonreq.iter().enumerate() {
+            for st in 0..n_states {
+                for send in SENDS {
+                    judge(&ctx, &mut tl, &Scenario { state: st, events: vec![dgram(d.clone(), RX[1], send, k as u32)] });
+                }
+            }
+        }
+        tl.flush(&ctx);
+    }
+
+    // ---- E3: mutation neighbourhood of base requests ----
+    let mut bases: Vec<(Vec<u8>, Vec<usize>)> = Vec::new(); // bytes + offsets of TLV length fields
+    {
+        let p = request(128, 0x0102, 0x0304_0506_0708_090a, 1);
+        bases.push((p.bytes(), vec![46]));
+        let mut p = request(3, 0xfffe, -5, 3);
+        p.tlvs.insert(0, (wire::TLV_PAD, vec![1, 2]));
+        bases.push((p.bytes(), vec![46, 52]));
+        let mut p = request(255, 1, 0, 0);
+        p.tlvs.push(wire::status_tlv(1, 2, 3, 4, 5, 6, 7, [8; 8]));
+        bases.push((p.bytes(), vec![46, 54]));
+        let mut p = request(0, 0, i64::MIN, 2);
+        p.flag0 = 0xff;
+        p.flag1 = 0xff;
+        bases.push((p.bytes(), vec![46]));
+        {
+            let mut p = request(77, 0x8000, 1, 1);
+            p.tlvs.push((wire::TLV_PAD, vec![0; 40]));
+            bases.push((p.bytes(), vec![46, 54]));
+            let mut p = request(128, 5, 0, 1);
+            p.tlvs.insert(0, (0x0008, vec![]));
+            p.tlvs.push((0x4000, vec![1, 2, 3, 4]));
+            bases.push((p.bytes(), vec![46, 50, 58]));
+        }
+    }
+    let mut muts: Vec<Vec<u8>> = Vec::new();
+    for (b, offs) in &bases {
+        for k in 0..=b.len() {
+            muts.push(b[..k].to_vec());
+        }
+        for i in 0..b.len() {
+            let o = b[i];
+            // every other value of this byte
+            for pat in 0..=255u8 {
+                if pat != o {
+                    let mut x = b.clone();
+                    x[i] = pat;
+                    muts.push(x);
+                }
+            }
+        }
+        if !quick {
+            // thorough: every pair of positions x 3 patterns
+            for i in 0..b.len() {
+                for j in i + 1..b.len() {
+                    for (pi, pj) in [(0x00u8, 0x00u8), (0xff, 0xff), (b[i] ^ 1, b[j] ^ 1), (b[i] ^ 0x80, 0x00), (0x01, b[j].wrapping_add(1))] {
+                        if pi != b[i] && pj != b[j] {
+                            let mut x = b.clone();
+                            x[i] = pi;
+                            x[j] = pj;
+                            muts.push(x);
+                        }
+                    }
+                }
+            }
+        }
+        let l = b.len() as u16;
+        for v in [0u16, 33, 34, 43, 44, 45, 46, 47, 48, l - 4, l - 2, l - 1, l + 1, l + 2, 0x7fff, 0xffff] {
+            let mut x = b.clone();
+            x[2..4].copy_from_slice(&v.to_be_bytes());
+            muts.push(x.clone());
+            x.extend_from_slice(&[0; 8]);
+            muts.push(x);
+        }
+        for &o in offs {
+            let cur = u16::from_be_bytes([b[o], b[o + 1]]);
+            let rest = (b.len() - o - 2) as u16;
+            for v in [0u16, 1, 2, 3, cur + 1, cur + 2, cur.wrapping_sub(1), cur.wrapping_sub(2), rest, rest - 1, rest - 2, rest + 1, rest + 2, 0xfffe, 0xffff] {
+                let mut x = b.clone();
+                x[o..o + 2].copy_from_slice(&v.to_be_bytes());
+                muts.push(x.clone());
+                x.extend_from_slice(&[0; 4]);
+                muts.push(x);
+            }
+        }
+    }
+    ctx.set("e3_mutants", muts.len() as u64);
+    common::par_for(muts.len() as u64, 64, |i| {
+        let mut tl = Tally::default();
+        for st in [1usize, 3] {
+            judge(&ctx, &mut tl, &Scenario { state: st, events: vec![dgram(muts[i as usize].clone(), RX[1], SENDS[1], i as u32)] });
+        }
+        tl.flush(&ctx);
+    });
+
+    // ---- E4: sequences through one serve() call ----
+    {
+        let syms: Vec<Ev> = vec![
+            dgram(request(1, 10, 111, 1).bytes(), RX[0], SENDS[0], 1),
+            dgram(request(2, 20, 222, 0).bytes(), RX[1], SENDS[1], 2),
+            dgram(request(3, 30, 333, 3).bytes(), RX[2], SENDS[3], 3),
+            dgram(request(4, 40, 444, 1).bytes(), RX[1], SENDS[4], 4),
+            dgram(nonreq[0].clone(), RX[1], SENDS[1], 5),
+            dgram(nonreq[4].clone(), RX[2], SENDS[2], 6),
+            dgram(vec![0xff; 20], RX[0], SENDS[0], 7),
+            Ev::RecvErr,
+            Ev::State(2),
+        ];
+        let maxlen = if quick { 4 } else { 6 };
+        let mut n = 0u64;
+        for len in 0..=maxlen {
+            n += common::pow(syms.len(), len);
+        }
+        ctx.set("e4_sequences", n);
+        common::par_for(n, 64, |i| {
+            let mut tl = Tally::default();
+            let mut j = i;
+            let mut len = 0;
+            while j >= common::pow(syms.len(), len) {
+                j -= common::pow(syms.len(), len);
+                len += 1;
+            }
+            let w = common::word_of(j, syms.len(), len);
+            let sc = Scenario { state: 1, events: w.iter().map(|x| syms[*x].clone()).collect() };
+            let line = judge(&ctx, &mut tl, &sc);
+            if i % 211 == 5 {
+                ctx.sample(format!("E4 {w:?} -> {line}"));
+            }
+            tl.flush(&ctx);
+        });
+    }
+
+    ctx.sample(format!(
+        "datagrams {}: non-requests {} (all must be silent), requests answered {}, grey answered {} / unanswered {}, two-step answers {}, follow-ups checked {}, send failures {}",
+        ctx.get("datagrams"),
+        ctx.get("non_requests"),
+        ctx.get("requests_answered"),
+        ctx.get("grey_requests_answered"),
+        ctx.get("grey_requests_unanswered"),
+        ctx.get("two_step_answers"),
+        ctx.get("follow_ups_checked"),
+        ctx.get("send_failures")
+    ));
+    ctx.exhaustive(true);
+    ctx.finish();
+}
